@@ -227,7 +227,7 @@ def gen_tables(ctx):
     return True
 
 
-def standard_check(ctx, prop, plan, monitors, theorems, corpus_dirs=(), rule="", extra_modules=("Rie.Props.Tables",), e2e=0):
+def standard_check(ctx, prop, plan, monitors, theorems, corpus_dirs=(), rule="", extra_modules=("Rie.Props.Tables",), e2e=0, extra=None):
     thorough = ctx.tier == "thorough"
     ctx.trusted += ["correspondence: stackdrv (real rapidcore.SandboxBuilder stack in process, fake supervisor held to the C19 model, scripted HTTP actors, quiescent stepping) vs rie-oracle sys",
                     "regenerated state-machine tables (unitdrv tables) re-proved equal to the model programs by decide",
@@ -248,6 +248,8 @@ def standard_check(ctx, prop, plan, monitors, theorems, corpus_dirs=(), rule="",
         confirm(ctx, result, prop, monitors, theorems)
         if e2e:
             run_e2e(ctx, prop, e2e * (3 if thorough else 1))
+        if extra:
+            extra(ctx)
         ctx.cov["stack_cases"] = result["cases"]
         ctx.cov["stack_steps"] = result["steps"]
     return ctx.finish(level="proof", rule=rule or
